@@ -204,6 +204,7 @@ type HarnessResult struct {
 	Wall      float64
 	KnownHit  map[string]int
 	Samples   []string
+	OKSample  *PathResult
 }
 
 func runPath(P *Program, fn *ssa.Function, wi WorkItem, s *Solver, o *ExploreOpts, funcs map[*ssa.Function]int, stubs map[string]int) *PathResult {
@@ -338,6 +339,9 @@ func explore(P *Program, fn *ssa.Function, o ExploreOpts) *HarnessResult {
 				switch {
 				case res.Outcome.Kind == OutOK:
 					hr.NOK++
+					if res.ModelRes == "sat" && (hr.OKSample == nil || len(res.Inputs) > len(hr.OKSample.Inputs)) {
+						hr.OKSample = res
+					}
 					if len(hr.Samples) < 5 && len(res.Inputs) > 0 {
 						hr.Samples = append(hr.Samples, sampleString(res))
 					}
@@ -417,26 +421,38 @@ func writeReplay(prop string, hf HarnessFile, harness string, r *PathResult, tho
 	return p, os.WriteFile(p, data, 0o644)
 }
 
-// nativeReplay runs the replay vector against the compiled code. Returns (reproduced, observed outcome).
-func nativeReplay(prop string, hfs []HarnessFile, vecPath string) (bool, string, error) {
-	data, err := os.ReadFile(vecPath)
-	if err != nil {
-		return false, "", err
+// replayBins caches the compiled replay test binary per package directory for the duration of a run.
+var (
+	replayMu   sync.Mutex
+	replayBins = map[string]string{}
+	replayTmp  string
+)
+
+func cleanupReplay() {
+	if replayTmp != "" {
+		os.RemoveAll(replayTmp)
 	}
-	var rv ReplayVector
-	if err := json.Unmarshal(data, &rv); err != nil {
-		return false, "", err
+}
+
+func buildReplayBinary(hfs []HarnessFile, pkgDir string) (string, error) {
+	replayMu.Lock()
+	defer replayMu.Unlock()
+	if b, ok := replayBins[pkgDir]; ok {
+		return b, nil
 	}
-	tmp, err := os.MkdirTemp("", "verif-replay-")
-	if err != nil {
-		return false, "", err
+	if replayTmp == "" {
+		t, err := os.MkdirTemp("", "verif-replay-")
+		if err != nil {
+			return "", err
+		}
+		replayTmp = t
 	}
-	defer os.RemoveAll(tmp)
-	// generated test file listing all harnesses of this package
+	tmp := filepath.Join(replayTmp, fmt.Sprintf("p%d", len(replayBins)))
+	os.MkdirAll(tmp, 0o755)
 	var names []string
 	pkgName := ""
 	for _, h := range hfs {
-		if h.PkgDir != rv.PkgDir {
+		if h.PkgDir != pkgDir {
 			continue
 		}
 		src, _ := os.ReadFile(h.Path)
@@ -469,24 +485,44 @@ func nativeReplay(prop string, hfs []HarnessFile, vecPath string) (bool, string,
 			}
 		}
 	}
-	ov[filepath.Join(repoDir, rv.PkgDir, "zz_verif_replay_test.go")] = testFile
+	ov[filepath.Join(repoDir, pkgDir, "zz_verif_replay_test.go")] = testFile
 	ovData, _ := json.Marshal(map[string]any{"Replace": ov})
 	ovFile := filepath.Join(tmp, "overlay.json")
 	os.WriteFile(ovFile, ovData, 0o644)
+	bin := filepath.Join(tmp, "replay.test")
+	cmd := exec.Command("go", "test", "-c", "-tags", "verif", "-vet=off", "-overlay", ovFile, "-o", bin, "./"+pkgDir)
+	cmd.Dir = repoDir
+	cmd.Env = goEnv()
+	out, err := cmd.CombinedOutput()
+	if err != nil {
+		return "", fmt.Errorf("replay build failed: %v: %s", err, tail(string(out), 1500))
+	}
+	replayBins[pkgDir] = bin
+	return bin, nil
+}
 
+// nativeReplay runs the replay vector against the compiled code. Returns (reproduced, observed outcome).
+func nativeReplay(prop string, hfs []HarnessFile, vecPath string) (bool, string, error) {
+	data, err := os.ReadFile(vecPath)
+	if err != nil {
+		return false, "", err
+	}
+	var rv ReplayVector
+	if err := json.Unmarshal(data, &rv); err != nil {
+		return false, "", err
+	}
+	bin, err := buildReplayBinary(hfs, rv.PkgDir)
+	if err != nil {
+		return false, "build-failed", err
+	}
 	tmo := "60s"
 	switch OutcomeKind(rv.Expect) {
 	case OutUnwind, OutDeadlock, OutLeak:
 		tmo = "10s"
 	}
-	cmd := exec.Command("go", "test", "-tags", "verif", "-vet=off", "-count=1", "-timeout", tmo, "-run", "^TestVerifReplay$", "-overlay", ovFile, "./"+rv.PkgDir)
-	cmd.Dir = repoDir
+	cmd := exec.Command(bin, "-test.run", "^TestVerifReplay$", "-test.timeout", tmo, "-test.count", "1")
+	cmd.Dir = filepath.Join(repoDir, rv.PkgDir)
 	cmd.Env = append(goEnv(), "VERIF_REPLAY="+vecPath)
-	for _, in := range rv.Inputs {
-		if in.Label == "TZ" {
-			// zone replay: value is an index into the zone table
-		}
-	}
 	if tz := replayTZ(&rv); tz != "" {
 		cmd.Env = append(cmd.Env, "TZ="+tz)
 	}
@@ -503,11 +539,11 @@ func nativeReplay(prop string, hfs []HarnessFile, vecPath string) (bool, string,
 		observed = "panic: " + mm[1]
 	} else if strings.Contains(text, "fatal error:") {
 		observed = "fatal: " + firstLineWith(text, "fatal error:")
-	} else if strings.Contains(text, "[build failed]") || strings.Contains(text, "[setup failed]") {
-		return false, "build-failed: " + tail(text, 800), fmt.Errorf("replay build failed")
 	}
 	repro := false
 	switch OutcomeKind(rv.Expect) {
+	case OutOK:
+		repro = observed == "ok"
 	case OutAssert:
 		repro = observed == "assert:"+rv.Detail
 	case OutPanic, OutCrash:
